@@ -693,7 +693,7 @@ impl SubRule {
                         MatchElement::Segment(i, _) => {
                             pos = i;
                             // remove segment                             
-                            if res_word.syllables.len() <= 1 && word.syllables[i.syll_index].segments.len() <= 1 {
+                            if res_word.syllables.len() <= 1 && res_word.syllables[i.syll_index].segments.len() <= 1 {
                                 return Err(RuleRuntimeError::DeletionOnlySeg)
                             }
                             res_word.syllables[i.syll_index].segments.remove(i.seg_index);
